@@ -196,7 +196,7 @@ def _wordwise_semantic(crate, I, b, tr, backs):
     arrays / 0..N, no take/skip/filter).  Returns (ok, description) or None when the structure is different."""
     if not backs:
         return None
-    N_ = ("gparam", "N")
+    N_ = ("gparam", GN[0])
     p1, p2 = ("param", 1, I.names.get(1)), ("param", 2, I.names.get(2))
 
     def arr(pl):
@@ -358,7 +358,7 @@ def _wordwise_semantic(crate, I, b, tr, backs):
 def _wordwise_alt(crate, I, b, tr, backs):
     """forms of the word-wise operators other than the zip chain; None when none applies"""
     p1, p2 = ("param", 1, I.names.get(1)), ("param", 2, I.names.get(2))
-    N_ = ("gparam", "N")
+    N_ = ("gparam", GN[0])
     # --- forwarding impl: the same operator of another receiver form (by value -> by reference, &x -> x.clone()),
     #     applied to the same operands in order, result returned; the impl forwarded to is judged on its own
     if not backs and I.final_states:
@@ -534,11 +534,16 @@ def _wordwise_for_each(crate, I, b, tr):
     return desc
 
 
+GN = ["N"]   # the name of Bitset's const parameter (the number of words), read from the crate in check()
+
+
 def check(col, prog, tier, profile, fixture=None):
     crate = prog.crate(fixture or "rlib_bitset")
     sfx = "" if profile == "dev" else "@" + profile
     fk = util.fkey
     adt = util.need_adt(crate, "Bitset")
+    gn_ = util.generic_names(crate, "Bitset")
+    GN[0] = gn_[0] if len(gn_) == 1 else "N"
     f0 = util.fields_of(adt)[0]
     if not f0["ty"].startswith("[u64;"):
         raise Anchor("Bitset is expected to hold [u64; N]")
@@ -863,7 +868,7 @@ def check(col, prog, tier, profile, fixture=None):
             for e in st.event_list():
                 if e.kind == "call" and e.extra.get("name") == "map":
                     r = e.args[0]
-                    okr = r[0] == "agg" and r[1][1].endswith("ops::Range") and r[2][0] == mk_int(0) and r[2][1] in (("bin", "Mul", ("gparam", "N"), mk_int(W)), ("bin", "Mul", mk_int(W), ("gparam", "N")), ("bin", "Shl", ("gparam", "N"), mk_int(LOGW)))
+                    okr = r[0] == "agg" and r[1][1].endswith("ops::Range") and r[2][0] == mk_int(0) and r[2][1] in (("bin", "Mul", ("gparam", GN[0]), mk_int(W)), ("bin", "Mul", mk_int(W), ("gparam", GN[0])), ("bin", "Shl", ("gparam", GN[0]), mk_int(LOGW)))
         cl = util.closures_with_helpers(crate, fb, helpers)
         tests = any(any((t["fn"].get("name") == "test") for bb, t in c.calls()) for c in cl)
         key = "%s|all-bits" % fk(fb)
@@ -887,7 +892,7 @@ def check(col, prog, tier, profile, fixture=None):
                     okl = False
                     continue
                 i_ = ts[0].args[1]
-                rng = i_[0] == "elem" and i_[2] == mk_int(0) and i_[3] in (("bin", "Mul", ("gparam", "N"), mk_int(W)), ("bin", "Mul", mk_int(W), ("gparam", "N")), ("bin", "Shl", ("gparam", "N"), mk_int(LOGW)))
+                rng = i_[0] == "elem" and i_[2] == mk_int(0) and i_[3] in (("bin", "Mul", ("gparam", GN[0]), mk_int(W)), ("bin", "Mul", mk_int(W), ("gparam", GN[0])), ("bin", "Shl", ("gparam", GN[0]), mk_int(LOGW)))
                 truth = None
                 for f in st.facts:
                     if f[1] == ts[0].res and f[0] in ("eq", "ne"):
